@@ -32,8 +32,10 @@ def ops_for(b, drop):
     ops = [('append',)]
     for k in sorted({1, 2, b, b + 1}):
         ops.append(('append_multiple', k))
+    ops.append(('append_multiple', 0))        # extend([])
     if drop is None:
-        ops += [('delete', 'first'), ('delete', 'middle'), ('delete', 'last'), ('flush',),
+        ops += [('delete', 'first'), ('delete', 'middle'), ('delete', 'last'), ('delete', 'neg1'), ('delete', 'neg2'), ('flush',),
+                ('setslice', 1, 'far'), ('setslice', 'far-neg', 2),      # bounds a list clamps
                 ('setitem', 0), ('setitem', -1), ('setslice_tail', 1), ('setslice_tail', 2), ('setslice_mid',),
                 ('setslice', None, 2), ('setslice', 1, None), ('setslice', -3, -1), ('setslice', None, None)]
     else:
@@ -87,9 +89,9 @@ class Sim:
             elif op[0] == 'append_multiple':
                 rs = [self.row() for _ in range(op[1])]
                 exp.extend(rs)
-                a.append_multiple(np.array(rs))
+                a.append_multiple(np.array(rs) if rs else np.zeros((0, 2)))
             elif op[0] == 'delete':
-                i = {'first': 0, 'middle': len(exp) // 2, 'last': len(exp) - 1}[op[1]]
+                i = {'first': 0, 'middle': len(exp) // 2, 'last': len(exp) - 1, 'neg1': -1, 'neg2': -min(2, len(exp))}[op[1]]
                 del exp[i]
                 a.delete(i, axis=0)
             elif op[0] == 'flush':
@@ -109,7 +111,8 @@ class Sim:
                 exp[1:3] = rs
                 a[1:3] = np.array(rs)
             elif op[0] == 'setslice':
-                sl = slice(op[1], op[2])
+                far = len(exp) + 5
+                sl = slice(-far if op[1] == 'far-neg' else op[1], far if op[2] == 'far' else op[2])
                 k = len(exp[sl])
                 rs = [self.row() for _ in range(k)]
                 exp[sl] = rs
@@ -149,8 +152,12 @@ class Sim:
         a, m = self.a, self.m
         n = len(m)
         out = []
-        if len(a) != n:
-            out.append(('len', {}, 'len() is %d, list has %d' % (len(a), n)))
+        try:
+            la = len(a)
+        except Exception as e:
+            return [('len-raises', {'exc': type(e).__name__}, 'len() raised %r, list has %d rows' % (e, n))]
+        if la != n:
+            out.append(('len', {}, 'len() is %d, list has %d' % (la, n)))
         for i in range(-n - 1, n + 1):
             valid = -n <= i < n
             try:
